@@ -1,7 +1,7 @@
 (* C18 — viscous and wave drag estimates are well-behaved and discretisation-consistent.
-   Property theorems only; proofs in Real/DragProofs.v. *)
+   Property theorems only; proofs in Real/DragProofs.v and Real/DragMixed.v. *)
 From Coq Require Import Reals Arith Lra.
-From OAS Require Import Scalar Rops Sums Drag DragProofs.
+From OAS Require Import Scalar Rops Sums Drag DragProofs DragMixed.
 Open Scope R_scope.
 
 Theorem C18_estimates_zero_when_off :
@@ -47,19 +47,31 @@ Theorem C18_CDv_increasing_in_thickness :
 Proof. exact CDv_increasing_in_toc. Qed.
 Print Assumptions C18_CDv_increasing_in_thickness.
 
-(* PARTIAL: decreasing in Reynolds number is proved for fully turbulent (k_lam = 0) and fully laminar
-   (k_lam = 1) surfaces; the mixed case 0 < k_lam < 1 is only validated numerically *)
-Theorem C18_CDv_decreasing_in_Re_partial :
+(* decreasing in Reynolds number for EVERY laminar fraction 0 <= k_lam <= 1.  For a mixed surface (0 < k_lam < 1) the
+   hypothesis is ln (Re_c k_lam) >= 3.58, i.e. a laminar-run chord Reynolds number above e^3.58 ~ 36 (the property
+   quantifies over > 1e3); the proof of the mixed case is by the mean value theorem (Real/DragMixed.v) *)
+Theorem C18_CDv_decreasing_in_Re :
   forall np sym k cmax re1 re2 M S_ref (widths lsp lengths toc : nat -> R),
-    (0 < np)%nat -> (k = 0 \/ k = 1) -> 0 < cmax -> 0 < M -> 0 < S_ref ->
+    (0 < np)%nat -> 0 <= k -> k <= 1 -> 0 < cmax -> 0 < M -> 0 < S_ref ->
     (forall j, (j < np)%nat -> 0 < widths j) ->
     (forall j, (j < np)%nat -> 0 < vd_chord lengths j) ->
     (forall j, (j < np)%nat -> 0 <= toc j) ->
-    (forall j, (j < np)%nat -> 1 < re1 * vd_chord lengths j) -> 0 < re1 -> re1 < re2 ->
+    (forall j, (j < np)%nat -> 1 < re1 * vd_chord lengths j) ->
+    (forall j, (j < np)%nat -> 0 < k < 1 -> 358 / 100 <= ln (re1 * vd_chord lengths j * k)) ->
+    0 < re1 -> re1 < re2 ->
     viscous_CDv np sym k cmax re2 M S_ref widths lsp lengths toc true
     < viscous_CDv np sym k cmax re1 M S_ref widths lsp lengths toc true.
-Proof. exact CDv_decreasing_in_Re_partial. Qed.
-Print Assumptions C18_CDv_decreasing_in_Re_partial.
+Proof. exact CDv_decreasing_in_Re. Qed.
+Print Assumptions C18_CDv_decreasing_in_Re.
+
+(* the chord-Reynolds-number hypothesis of the mixed case is met by a laminar-run Reynolds number of 1e3 *)
+Example C18_mixed_hypothesis_met_at_1e3 : 358 / 100 <= ln 1000.
+Proof.
+  assert (H2 : 2 < ln 10).
+  { rewrite <- (ln_exp 2). apply ln_increasing; [apply exp_pos|].
+    replace 2 with (1 + 1) by lra. rewrite exp_plus. pose proof exp_le_3. pose proof (exp_pos 1). nra. }
+  replace 1000 with (10 * (10 * 10)) by lra. rewrite !ln_mult by lra. lra.
+Qed.
 
 (* wave drag: zero up to the crest-critical Mach number, 0 <= CDw <= 20 (M - Mcrit)^4 everywhere
    (value and slope vanish at the onset), strictly increasing beyond it, non-decreasing in lift *)
